@@ -105,7 +105,10 @@ def interpass(prog):
                     if n['k'] == 'BinaryOperator' and n.get('op') == '=' and strip(kids(n)[0]).get('n') == 'pass' and const(kids(n)[1]) == 2:
                         hit = True
                         break
-                elif callee(n) == what:
+                    if n['k'] in ('CallExpr', 'CXXMemberCallExpr') and _must_do(prog, ckey(n), what, 0, call_args(n)):
+                        hit = True
+                        break
+                elif callee(n) == what or (n['k'] in ('CallExpr', 'CXXMemberCallExpr') and _must_do(prog, ckey(n), what, 0)):
                     hit = True
                     break
             if hit or avoid:
@@ -116,6 +119,46 @@ def interpass(prog):
                       'a path from the first assemble() to the second skips %s: %s' % (what, why) if avoid else '',
                       'every path between the passes executes ' + what))
     return RuleResult('T-SIB(a)', obs, 4, {})
+
+
+def _must_do(prog, key, what, depth, args=None):
+    """Does every path through function `key` execute `what` (a call of that name, possibly inside a callee that must
+    execute it; or, for 'pass=2', a store of 2 -- or of a parameter that receives the constant 2 -- to the pass field)?"""
+    f = prog.by_key.get(key) if key else None
+    if f is None or not f.blocks or depth > 3:
+        return False
+    pvals = {}
+    if args is not None:
+        for p, a in zip(f.params(), args):
+            if const(a) is not None:
+                pvals[p['d']] = const(a)
+    seen = set()
+    st = [f.entry]
+    while st:
+        b = st.pop()
+        if b in seen:
+            continue
+        seen.add(b)
+        hit = False
+        for e in f.blocks[b]['e']:
+            n = f.nodes.get(e)
+            if n is None:
+                continue
+            if what == 'pass=2':
+                if n['k'] == 'BinaryOperator' and n.get('op') == '=' and strip(kids(n)[0]).get('n') == 'pass':
+                    r = strip(kids(n)[1], casts=True)
+                    if const(kids(n)[1]) == 2 or (r['k'] == 'DeclRefExpr' and pvals.get(r.get('d')) == 2):
+                        hit = True
+                        break
+            elif n['k'] in ('CallExpr', 'CXXMemberCallExpr') and (callee(n) == what or _must_do(prog, ckey(n), what, depth + 1)):
+                hit = True
+                break
+        if hit:
+            continue
+        if b == f.exit:
+            return False
+        st.extend(f.succs(b))
+    return True
 
 
 def addsym(prog):
@@ -315,3 +358,40 @@ def directives(prog):
                       '' if ok else 'directive `%s` is handled by %s, the documented width needs %s' % (nm, g, want),
                       '%s -> %s' % (nm, g), False))
     return RuleResult('DIRECTIVE', obs, 12, {})
+
+
+def default_cpu(prog, cg):
+    """DEFAULT-CPU: a source without a CPU directive is assembled by the default CPU with that CPU's complete cpu_list[]
+    settings: AsmContext::init() selects it through set_cpu() (not by storing parse_instruction / list_output by hand,
+    which leaves pass_1_write_disable, alignment, srec_size ... at other values), and cpu_list_index is never given a
+    negative value, because file_write() and include_parse() use it as a subscript of cpu_list[]."""
+    init = prog.fn('AsmContext::init')
+    reach = cg.reachable(['AsmContext::init'])
+    calls_set = any(k.startswith('AsmContext::set_cpu') for k in reach)
+    by_hand = [n for n in init.nodes.values() if n['k'] == 'BinaryOperator' and n.get('op') == '=' and
+               strip(kids(n)[0]).get('n') in ('parse_instruction', 'list_output')]
+    ok = calls_set and not by_hand
+    obs = [Ob('DEFAULT-CPU', init.file, init.line, init.q, 'selects-through-set_cpu', DISCHARGED if ok else VIOLATED,
+              '' if ok else 'init() %s: the default CPU runs with settings that are not those of its cpu_list[] entry (msp430 needs '
+              'pass_1_write_disable = 1 for its pass-1 memo, -type srec/elf read its srec_size/alignment)' % (
+                  'installs parse_instruction/list_output itself (line %d)' % by_hand[0]['l'] if by_hand else 'does not call set_cpu()'),
+              'init() calls set_cpu()')]
+    neg = []
+    nstores = 0
+    for fn in prog.fns.values():
+        if fn.file.startswith('tests/'):
+            continue
+        for n in fn.nodes.values():
+            if n['k'] == 'BinaryOperator' and n.get('op') == '=' and strip(kids(n)[0]).get('n') == 'cpu_list_index' and \
+                    strip(kids(n)[0]).get('rec') == 'AsmContext':
+                nstores += 1
+                v = const(kids(n)[1])
+                if v is not None and v < 0:
+                    neg.append((fn, n))
+    obs.append(Ob('DEFAULT-CPU', neg[0][0].file if neg else init.file, neg[0][1]['l'] if neg else init.line,
+                  neg[0][0].q if neg else 'AsmContext', 'cpu_list_index>=0', VIOLATED if neg else DISCHARGED,
+                  'cpu_list_index is set to %s: cpu_list[cpu_list_index] in file_write() / include_parse() reads in front of the table' % (
+                      const(kids(neg[0][1])[1])) if neg else '', '%d stores, none negative' % nstores))
+    if nstores < 1:
+        raise AnalysisBroken('DEFAULT-CPU: no store to AsmContext::cpu_list_index found')
+    return RuleResult('DEFAULT-CPU', obs, 2, {})
